@@ -55,8 +55,13 @@ def run_paths(ctx, fnname, mk):
     w = setup(ctx); res = []
     def go(it):
         args, outs = mk(w); ret = it.call(fnname, args); return ret, outs(ret)
-    for p in explore(w, go): res.append((p.pc, p.status, p.result))
+    BOUNDS.clear()
+    for p in explore(w, go):
+        res.append((p.pc, p.status, p.result))
+        for e in p.events:
+            if e[0] == 'bound': BOUNDS.add(e[1])
     return res
+BOUNDS = set()     # bounds introduced by the stubs on the last run_paths (e.g. limb-wise access to a symbolic integer)
 
 def decide(ctx, name, paths, goal, pre=(), replayer=None, expect_term=None):
     """goal(tr, ret, outs) -> formula; terminated paths are checked with expect_term(tr) -> formula describing when termination is allowed"""
@@ -110,6 +115,23 @@ int main(int argc, char** argv) {
 def hrun(ctx, *args):
     r = subprocess.run([helper(ctx)] + [str(a) for a in args], stdout=subprocess.PIPE, stderr=subprocess.DEVNULL, text=True, timeout=60)
     return r.stdout.strip()
+def native_strings(ctx, which, why):
+    """the symbolic argument relies on how the conversion hands its text to GMP; when the code is organised differently this is no verdict about
+       the property: decide by concrete native calls (violation only if one misbehaves), otherwise inconclusive"""
+    rng = ctx.rng('C15native' + which)
+    zs = [0, 1, -1, 7, P - 1, P, P + 1, -P, -P - 1, 2**64 - 1, 2**64, 2**64 + 12345, -(2**64), 2**127 + 3, -(2**200) + 17, 3 * P, -3 * P + 1, 10**40 + 7] + [rng.getrandbits(rng.choice([16, 63, 64, 65, 130, 260])) * rng.choice([1, -1]) for _ in range(20)]
+    if which in ('fromString', 'fromScalar'):
+        for z in zs:
+            for radix in (10, 16, 2, 36, 7):
+                out = hrun(ctx, which, to_radix(z, radix), radix)
+                if out != str(z % P): return viol(which, '%s; native %s("%s", %d) = %s, expected %d' % (why, which, to_radix(z, radix)[:60], radix, out, z % P), replay=dict(kind=which, Z=z, radix=radix))
+    else:
+        for x in [0, 1, P - 1, P, P + 1, 2**64 - 1, 2**32, 2**63] + [rng.getrandbits(64) for _ in range(12)]:
+            for radix in (10, 16, 2, 36, 7):
+                out = hrun(ctx, 'toString', x, radix)
+                if out != to_radix(x % P, radix): return viol('toString', '%s; native toString(%#x, %d) = %s, canonical value %s' % (why, x, radix, out, to_radix(x % P, radix)), replay=dict(kind='toString', a=x, radix=radix))
+    return inconc('%s; concrete native calls agree with the specification' % why)
+
 def to_radix(z, radix):
     if z == 0: return '0'
     neg = z < 0; z = abs(z); d = ''
@@ -215,6 +237,7 @@ def decide_Z(ctx, name, paths, Z, kind, radix=10):
             if okr: return viol(kind, text, replay=dict(kind=kind, Z=zv, radix=radix))
             return inconc('ENCODING-MISMATCH: %s witness Z=%d does not reproduce (%s)' % (kind, zv, text))
         if r.status != 'unsat': return inconc(r.info)
+    if BOUNDS: return ok('%d path(s): out ≡ Z (mod p) and out < p for every integer Z within the bound: %s' % (len(paths), '; '.join(sorted(BOUNDS))), sample=dict(conversion=name, paths=len(paths), bound=sorted(BOUNDS)))
     return ok('%d path(s): out ≡ Z (mod p) and out < p for every integer Z' % len(paths), sample=dict(conversion=name, paths=len(paths)))
 
 def mkstring(w, text='12'):
@@ -240,30 +263,43 @@ def ob_fromString(ctx, form):
     okp = [p for p in paths if not (p[1] == 'terminated' and getattr(p[2], 'kind', '') == 'throw')]
     thrown = len(paths) - len(okp)
     # the string handed to GMP must be the caller's characters and the caller's radix
-    if not (isinstance(seen.get('str'), Ptr) and seen['str'].obj is seen['sobj'].cells[0].obj and seen['str'].off == 0): return viol('fromString/arg', 'mpz_init_set_str does not receive the caller\'s string', replay=dict(event='arg'))
-    if not (z3.is_expr(seen['base']) and z3.eq(seen['base'], radix)): return viol('fromString/radix', 'mpz_init_set_str does not receive the caller\'s radix', replay=dict(event='radix'))
+    if not (isinstance(seen.get('str'), Ptr) and seen['str'].obj is seen['sobj'].cells[0].obj and seen['str'].off == 0): return native_strings(ctx, 'fromString', 'mpz_init_set_str is not handed the caller\'s string object directly')
+    if not (z3.is_expr(seen['base']) and z3.eq(seen['base'], radix)): return native_strings(ctx, 'fromString', 'mpz_init_set_str is not handed the caller\'s radix directly')
     r = decide_Z(ctx, 'fromString/' + form, okp, Z, 'fromString')
     if r['status'] == 'proved': r['detail'] += '; %d failure path(s) raise the documented exception' % thrown
     return r
 
 def ob_toString(ctx):
     fn = sym(ctx, CFG, 'Goldilocks', 'toString', 'void (std::string &, const %s &, int)' % E); a = core.bv64('a'); radix = z3.BitVec('radix', 32)
-    w = setup(ctx); it = Interp(w)
-    res = Obj(32, 'result', 8); w.strings[(res.id, 0)] = ('empty',); oa = core.obj_words('a', [a], 8)
-    try: it.call(fn, [Ptr(res, 0), Ptr(oa, 0), radix])
-    except (Violation, Terminated) as e: return viol('toString/event', 'toString: %s' % e, replay=dict(event=str(e)))
-    tag = w.strings.get((res.id, 0))
-    if not tag or tag[0] != 'getstr': return viol('toString/plumbing', 'result string is not the text produced by mpz_get_str (%s)' % (tag,), replay=dict(event='plumbing'))
-    v, base, buf = w.getstr[tag[1]]
-    if not (z3.is_expr(base) and z3.eq(base, radix)): return viol('toString/radix', 'mpz_get_str does not receive the caller\'s radix', replay=dict(event='radix'))
-    if w.heap: return viol('toString/leak', 'GMP string buffer not released', replay=dict(event='leak'))
-    r = smt.prove(lambda tr: tr.int(v) == can(tr.val(a)) if not isinstance(v, int) else z3.BoolVal(False), assumptions=list(it.pc), timeout=60)
-    if r.status == 'unsat': return ok('mpz_get_str receives can(a) and the caller\'s radix; its buffer becomes the result string and is released', sample=dict(conversion='toString'))
-    if r.status == 'sat':
-        x = r.model.get('a', 0); out = hrun(ctx, 'toString', x, 10)
-        if out != str(x % P): return viol('toString', 'toString(%#x) = %s, canonical value %d' % (x, out, x % P), replay=dict(kind='toString', a=x))
-        return inconc('ENCODING-MISMATCH toString %#x' % x)
-    return inconc(r.info)
+    w = setup(ctx)
+    # decimal fast paths: std::to_string(value) produces the decimal text of its argument
+    def to_string(it, args): w.strings[(args[0].obj.id, args[0].off)] = ('decimal', args[1]); return None
+    for nm in ('@_ZNSt7__cxx119to_stringEm', '@_ZNSt7__cxx119to_stringEy', '@_ZNSt7__cxx119to_stringEl', '@_ZNSt7__cxx119to_stringEx'): w.hooks[nm] = to_string
+    def go(it):
+        res = Obj(32, 'result', 8); w.strings[(res.id, 0)] = ('empty',); oa = core.obj_words('a', [a], 8)
+        it.call(fn, [Ptr(res, 0), Ptr(oa, 0), radix])
+        return w.strings.get((res.id, 0)), list(w.getstr), dict(w.heap)
+    try: paths = explore(w, go, max_paths=32)
+    except Unsupported as e: return native_strings(ctx, 'toString', 'toString is organised in a way the string model does not follow (%s)' % str(e)[:100])
+    n = 0
+    for p_ in paths:
+        if p_.status != 'ok': return viol('toString/event', 'toString: %s' % p_.result, replay=dict(event=str(p_.result)))
+        tag, getstr, heap = p_.result
+        if tag and tag[0] == 'getstr':
+            v, base, buf = getstr[tag[1]]
+            if not (z3.is_expr(base) and z3.eq(base, radix)): return native_strings(ctx, 'toString', 'mpz_get_str is not handed the caller\'s radix directly')
+            goal = lambda tr, v=v: tr.int(v) == can(tr.val(a)) if not isinstance(v, int) else z3.BoolVal(False)
+        elif tag and tag[0] == 'decimal':
+            v = tag[1]
+            goal = lambda tr, v=v: z3.And(tr.val(tobv(v, 64)) == can(tr.val(a)), tr.val(radix) == 10)
+        else: return native_strings(ctx, 'toString', 'the result string is not the text of mpz_get_str / std::to_string (%s)' % (tag,))
+        r = smt.prove(goal, assumptions=list(p_.pc), timeout=60); n += 1
+        if r.status == 'sat':
+            x = r.model.get('a', 0); rd = r.model.get('radix', 10); rd = rd if 2 <= rd <= 36 else 10; out = hrun(ctx, 'toString', x, rd)
+            if out != to_radix(x % P, rd): return viol('toString', 'toString(%#x, %d) = %s, canonical value %s' % (x, rd, out, to_radix(x % P, rd)), replay=dict(kind='toString', a=x, radix=rd))
+            return inconc('ENCODING-MISMATCH toString %#x' % x)
+        if r.status != 'unsat': return inconc(r.info)
+    return ok('%d path(s): the text producer (mpz_get_str with the caller\'s radix, or std::to_string when the radix is 10) receives can(a)' % n, sample=dict(conversion='toString', paths=n))
 
 def ob_roundtrip(ctx, which):
     """integer -> field -> integer is the identity on the range of the outward conversion"""
@@ -342,7 +378,7 @@ def replay(ctx, d):
         z = d['Z']; radix = d.get('radix', 10); out = hrun(ctx, k, to_radix(z, radix), radix)
         return out != str(z % P), 'Goldilocks::%s("%s", radix %d) = %s, the residue of the integer mod p is %d' % (k, to_radix(z, radix), radix, out, z % P)
     if k == 'toString':
-        out = hrun(ctx, 'toString', d['a'], 10); return out != str(d['a'] % P), 'toString(%d) = %s' % (d['a'], out)
+        rd = d.get('radix', 10); out = hrun(ctx, 'toString', d['a'], rd); return out != to_radix(d['a'] % P, rd), 'toString(%d, %d) = %s' % (d['a'], rd, out)
     m = d.get('model', {})
     if k.startswith('toS32') or k == 'roundtrip/s32':
         x = m.get('a', None)
